@@ -756,6 +756,7 @@ package compose
 
 //@ func extractOption
 //@   props C16 C09
+//@   after call 3 append: assert[option_forwarded_to_a_nested_graph_is_undesignated] @C16 len(result) >= 1 && is(result[len(result) - 1], "Option") && len(unbox(result[len(result) - 1], "Option").paths) == 0
 //@   requires nodesOK(nodes) && optsOK(opts)
 //@   ensures[fresh] result1 == nil ==> optMapFresh(result0)
 //@   ensures[keys] result1 == nil ==> forall(k string :: in(k, result0) ==> in(k, nodes))
@@ -957,6 +958,7 @@ package compose
 //@   modifies validateState(g)
 //@   ensures[types_kept] forall(k string :: old(in(k, g.nodes)) && old(g.nodes[k].cr.inputType) != nil ==> g.nodes[k].cr.inputType == old(g.nodes[k].cr.inputType))
 //@   ensures[nodes_same] nodesSame(g)
+//@   after call 1 append: assert[only_decidable_edges_leave_the_pending_list] @C07 startNodeOutputType != nil || endNodeInputType != nil
 //@   ghost curEnd string = ""
 //@   at call g.getNodeInputType: ghost curEnd = arg0
 //@   ghost helperOf string = ""
@@ -1782,3 +1784,11 @@ package compose
 //@   after call unpackStreamReader[map[string]any]: ghost inputNotMaps = !result1
 //@   at call packStreamReader: ghost packedAsMaps = typename(arg0) == "*schema.StreamReader[map[string]any]"
 //@   ensures[stream_form_keeps_the_chunk_type] @C04,C15 packedAsMaps || inputNotMaps
+
+//@ func (*Workflow).compile$2
+//@   props C04 C09
+//@   skip pre safe
+//@   note the stream form of the static-value handler runs once per streamed run; the one-chunk stream carrying the static values is consumed by that run, so it has to be created by the call itself (a stream captured at compile time would be drained by the first run and closed twice by the second)
+//@   ghost pipes int = 0
+//@   after call schema.Pipe[map[string]any]: ghost pipes++
+//@   at call 1 mergeValues: assert[static_value_stream_created_per_call] @C04,C09 pipes >= 1
